@@ -143,7 +143,7 @@ def h_ports(ctx, ninit, nnotes, refresh=None):
 STAT_KINDS = {'flow': 1, 'table': 3, 'port': 4, 'queue': 5, 'desc': 0, 'aggregate': 2}
 
 
-def h_ports_handshake(ctx, nearly, nlate):
+def h_ports_handshake(ctx, nearly, nlate, coalesce=False):
   """port-status notifications that arrive inside the handshake window (after the features reply, before the barrier reply) are replayed when
   the connection comes up: the port view and the PortStatus events must reflect them in arrival order, followed by the later ones"""
   from props import C09
@@ -171,9 +171,14 @@ def h_ports_handshake(ctx, nearly, nlate):
   for j in range(nearly): note(j)
   ctx.check('nothing announced before the barrier reply', not any(x[0] in ('up', 'port') for x in log))
   bx = C09.barrier_xid(of, of01, sock)
+  C09.HELD[0] = None
+  C09.HOLD[0] = bool(coalesce and nlate)           # coalesce: the barrier reply and the notifications behind it arrive in one recv() chunk
   C09.feed(con, sock, of.ofp_barrier_reply(xid=bx))
+  if not C09.HOLD[0]: ctx.check('connection came up', any(x[0] == 'up' for x in log))
+  for j in range(nearly, nearly + nlate):
+    if j == nearly + nlate - 1: C09.HOLD[0] = False
+    note(j)
   ctx.check('connection came up', any(x[0] == 'up' for x in log))
-  for j in range(nearly, nearly + nlate): note(j)
   got = [x[2] for x in log if x[0] == 'port']
   ctx.check('PortStatus events: one per notification, in arrival order', len(got) == len(notes) and all(bool(a == b) for a, b in zip(got, notes)))
   ports = con.ports
@@ -281,7 +286,7 @@ def obligations(tier):
   return [
     Obligation('O1_ports', h_ports, pc, witnesses=('done', 'add', 'replace', 'delete-hit', 'delete-miss', 'refreshed'), max_decisions=20000,
                desc='PortCollection view == reference map after features reply + port-status notifications'),
-    Obligation('O4_ports_handshake', h_ports_handshake, [dict(nearly=a, nlate=b) for a, b in ((1, 0), (2, 0), (2, 1), (3, 0) if thorough else (1, 1))], witnesses=('done',),
+    Obligation('O4_ports_handshake', h_ports_handshake, [dict(nearly=a, nlate=b) for a, b in ((1, 0), (2, 0), (2, 1), (3, 0) if thorough else (1, 1))] + [dict(nearly=1, nlate=2, coalesce=True), dict(nearly=0, nlate=1, coalesce=True)], witnesses=('done',),
                max_decisions=20000, desc='port-status notifications inside the handshake window are applied (and announced) in arrival order'),
     Obligation('O2_stats', h_stats, st, witnesses=('done',), max_decisions=20000,
                desc='multipart stats reassembly: one event per request, after the final part, own entries in order'),
